@@ -49,12 +49,13 @@ pub fn replay() {
             let steps = v::apply_structural(&rules, w2.clone())?;
             Ok::<_, asca::Error>(steps.last().map(|s| s.word.clone()).unwrap_or(w2))
         });
-        let exp_steps: Vec<(i64, bool)> = vec["steps"].as_array().unwrap().iter().map(|s| (s[0].as_i64().unwrap(), s[1].as_bool().unwrap())).collect();
+        let has_steps = vec.get("steps").is_some();
+        let exp_steps: Vec<(i64, bool)> = vec.get("steps").and_then(|s| s.as_array()).map(|a| a.iter().map(|s| (s[0].as_i64().unwrap(), s[1].as_bool().unwrap())).collect()).unwrap_or_default();
         let render = |w: &v::Word| v::render_word(w, &v::no_aliases());
         match &rec.result {
             Ok(Ok(w)) => {
                 let obs_steps = steps_of(&rec.events, &word);
-                if *w == exp && obs_steps == exp_steps {
+                if *w == exp && (!has_steps || obs_steps == exp_steps) {
                     sum.agree += 1;
                     if exp != word && sum.vectors % 101 == 0 { sum.sample(|| json!({"rule": text, "word": render(&word), "expected": render(&exp), "steps": vec["steps"]})); }
                 } else {
